@@ -180,6 +180,18 @@ Theorem C01_planar_fwd_inv : forall s w u0 b y,
   planar_fwd ROps (Some s) w u0 b (planar_inv ROps s w u0 b y) = y.
 Proof. exact planar_fwd_inv. Qed.
 Print Assumptions C01_planar_fwd_inv.
+(* The guard s <= 1 is NECESSARY: get_act_scale enforces only -1 < w . u-hat and the constructor rejects
+   only s <= 0; for a negative slope s > 1 with w . u-hat < -1/s the layer is not injective and its
+   analytic inverse does not undo it.  Witness w = (1,0), act_scale (0,0), b = 0,
+   s = -2/M with M = -1 + ln(1 + ln 2) (s ~ 4.22), x = (-1,0), x' = (1/(1+M), 0); replayed on /repo:
+   transform(x) = transform(x') = (1,0), inverse(transform(x)) = (1.899,0).  (Found via the C02 proof.) *)
+Theorem C01_planar_slope_gt1_refuted : exists s w u0 b x x',
+  1 < s /\ Exists (fun wi => wi <> 0) w /\ length u0 = length w /\ length x = length w /\ length x' = length w /\
+  -1 < dot ROps w (planar_u ROps w u0) /\
+  x <> x' /\ planar_fwd ROps (Some s) w u0 b x = planar_fwd ROps (Some s) w u0 b x' /\
+  planar_inv ROps s w u0 b (planar_fwd ROps (Some s) w u0 b x) <> x.
+Proof. exact planar_slope_gt1_refuted. Qed.
+Print Assumptions C01_planar_slope_gt1_refuted.
 (* transform_and_log_det computes the activation from `x @ w`, transform from `w @ x`: same point *)
 Theorem C01_planar_and_log_det_value : forall ns w u0 b x,
   vadd ROps x (vscale ROps (planar_act ROps ns (n_add ROps (dot ROps x w) b)) (planar_u ROps w u0))
